@@ -88,107 +88,7 @@ theorem realEq_comm (a b : Option Int) : realEq a b = realEq b a := by
 theorem realGe_eq (a b : Option Int) : realLe b a = (realLt b a || realEq a b) := by
   rw [realEq_comm]; exact realLe_eq b a
 
-/-! ### Laws that hold for every pair of values (pointers and NaN included) -/
-
-theorem val_le_eq (a b : JVal) : Val.le a b = (Val.lt a b || Val.eq a b) := by
-  induction a generalizing b with
-  | ptr t ih => cases b <;> simp [Val.le, Val.lt, Val.eq, ih]
-  | _ => cases b <;> simp [Val.le, Val.lt, Val.eq, rank, nat_le_eq, int_le_eq, realLe_eq, Str.le_eq]
-
-theorem val_ge_eq (a b : JVal) : Val.ge a b = (Val.gt a b || Val.eq a b) := by
-  induction a generalizing b with
-  | ptr t ih => cases b <;> simp [Val.ge, Val.gt, Val.eq, ih]
-  | _ => cases b <;> simp [Val.ge, Val.gt, Val.eq, rank, nat_ge_eq, int_ge_eq, realGe_eq, Str.ge_eq]
-
-/-- For one ordered pair without NaN exactly one of `<`, `==`, `>` holds — pointers included,
-    because all three operators dereference the left operand the same way. -/
-theorem val_tri (a b : JVal) (ha : noNaN a = true) (hb : noNaN b = true) :
-    ((Val.lt a b && !Val.eq a b && !Val.gt a b) || (!Val.lt a b && Val.eq a b && !Val.gt a b) ||
-      (!Val.lt a b && !Val.eq a b && Val.gt a b)) = true := by
-  induction a generalizing b with
-  | ptr t ih =>
-    have ht : noNaN t = true := by simpa [noNaN] using ha
-    cases b with
-    | ptr u => simpa [Val.lt, Val.gt, Val.eq] using ih u ht (by simpa [noNaN] using hb)
-    | _ => simpa [Val.lt, Val.gt, Val.eq] using ih _ ht hb
-  | str s =>
-    cases b with
-    | str s2 => simpa [Val.lt, Val.gt, Val.eq] using Str.tri s s2
-    | _ => simp [Val.lt, Val.gt, Val.eq, rank]
-  | nat n =>
-    cases b with
-    | nat m =>
-      simp only [Val.lt, Val.gt, Val.eq]
-      rcases Nat.lt_trichotomy n m with h | h | h
-      · have h1 : ¬ n = m := by omega
-        have h2 : ¬ n > m := by omega
-        simp [h, h1, h2]
-      · subst h; simp
-      · have h1 : ¬ n = m := by omega
-        have h2 : ¬ n < m := by omega
-        simp [h, h1, h2]
-    | _ => simp [Val.lt, Val.gt, Val.eq, rank]
-  | int n =>
-    cases b with
-    | int m =>
-      simp only [Val.lt, Val.gt, Val.eq]
-      rcases Int.lt_trichotomy n m with h | h | h
-      · have h1 : ¬ n = m := by omega
-        have h2 : ¬ n > m := by omega
-        simp [h, h1, h2]
-      · subst h; simp
-      · have h1 : ¬ n = m := by omega
-        have h2 : ¬ n < m := by omega
-        simp [h, h1, h2]
-    | _ => simp [Val.lt, Val.gt, Val.eq, rank]
-  | real x =>
-    cases b with
-    | real y =>
-      cases x with
-      | none => simp [noNaN] at ha
-      | some n =>
-        cases y with
-        | none => simp [noNaN] at hb
-        | some m =>
-          simp only [Val.lt, Val.gt, Val.eq, realLt, realEq]
-          rcases Int.lt_trichotomy n m with h | h | h
-          · have h1 : ¬ n = m := by omega
-            have h2 : ¬ m < n := by omega
-            simp [h, h1, h2]
-          · subst h; simp
-          · have h1 : ¬ n = m := by omega
-            have h2 : ¬ n < m := by omega
-            simp [h, h1, h2]
-    | _ => simp [Val.lt, Val.gt, Val.eq, rank]
-  | obj n =>
-    cases b with
-    | obj m =>
-      simp only [Val.lt, Val.gt, Val.eq]
-      rcases Nat.lt_trichotomy n m with h | h | h
-      · have h1 : ¬ n = m := by omega
-        have h2 : ¬ n > m := by omega
-        simp [h, h1, h2]
-      · subst h; simp
-      · have h1 : ¬ n = m := by omega
-        have h2 : ¬ n < m := by omega
-        simp [h, h1, h2]
-    | _ => simp [Val.lt, Val.gt, Val.eq, rank]
-  | arr n =>
-    cases b with
-    | arr m =>
-      simp only [Val.lt, Val.gt, Val.eq]
-      rcases Nat.lt_trichotomy n m with h | h | h
-      · have h1 : ¬ n = m := by omega
-        have h2 : ¬ n > m := by omega
-        simp [h, h1, h2]
-      · subst h; simp
-      · have h1 : ¬ n = m := by omega
-        have h2 : ¬ n < m := by omega
-        simp [h, h1, h2]
-    | _ => simp [Val.lt, Val.gt, Val.eq, rank]
-  | _ => cases b <;> simp [Val.lt, Val.gt, Val.eq, rank]
-
-/-! ### Reduction to the pointed-to values -/
+/-! ### Reduction to pointer-free values: every operator compares the pointed-to values -/
 
 theorem depth_zero_strip (a : JVal) (h : depth a = 0) : strip a = a := by
   cases a <;> simp_all [depth, strip]
@@ -196,124 +96,174 @@ theorem depth_zero_strip (a : JVal) (h : depth a = 0) : strip a = a := by
 theorem depth_strip (a : JVal) : depth (strip a) = 0 := by
   induction a <;> simp_all [depth, strip]
 
+theorem strip_strip (a : JVal) : strip (strip a) = strip a :=
+  depth_zero_strip _ (depth_strip a)
+
 theorem noNaN_strip (a : JVal) : noNaN (strip a) = noNaN a := by
   induction a <;> simp_all [noNaN, strip]
 
-/-- When the left operand has at least as many pointer layers as the right one, every operator
-    compares the pointed-to values. -/
-theorem val_lt_strip (a b : JVal) (h : depth b ≤ depth a) : Val.lt a b = Val.lt (strip a) (strip b) := by
+theorem derefRight_strip (f : JVal → JVal → Bool) (a b : JVal) : derefRight f a b = f a (strip b) := by
+  induction b <;> simp_all [derefRight, strip]
+
+theorem val_lt_base (a b : JVal) : Val.lt a b = Base.lt (strip a) (strip b) := by
   induction a generalizing b with
-  | ptr t ih =>
-    cases b with
-    | ptr u => simpa [Val.lt, strip] using ih u (by simpa [depth] using h)
-    | _ => exact ih _ (by simp [depth])
-  | _ => cases b <;> simp_all [depth, strip]
+  | ptr t ih => cases b <;> simp [Val.lt, strip, ih]
+  | _ => cases b <;> simp [Val.lt, derefRight_strip, strip]
 
-theorem val_gt_strip (a b : JVal) (h : depth b ≤ depth a) : Val.gt a b = Val.gt (strip a) (strip b) := by
+theorem val_gt_base (a b : JVal) : Val.gt a b = Base.gt (strip a) (strip b) := by
   induction a generalizing b with
-  | ptr t ih =>
-    cases b with
-    | ptr u => simpa [Val.gt, strip] using ih u (by simpa [depth] using h)
-    | _ => exact ih _ (by simp [depth])
-  | _ => cases b <;> simp_all [depth, strip]
+  | ptr t ih => cases b <;> simp [Val.gt, strip, ih]
+  | _ => cases b <;> simp [Val.gt, derefRight_strip, strip]
 
-theorem val_eq_strip (a b : JVal) (h : depth b ≤ depth a) : Val.eq a b = Val.eq (strip a) (strip b) := by
+theorem val_le_base (a b : JVal) : Val.le a b = Base.le (strip a) (strip b) := by
   induction a generalizing b with
-  | ptr t ih =>
-    cases b with
-    | ptr u => simpa [Val.eq, strip] using ih u (by simpa [depth] using h)
-    | _ => exact ih _ (by simp [depth])
-  | _ => cases b <;> simp_all [depth, strip]
+  | ptr t ih => cases b <;> simp [Val.le, strip, ih]
+  | _ => cases b <;> simp [Val.le, derefRight_strip, strip]
 
-/-- Right operand with more pointer layers: the comparison stops at the pointer and uses the
-    kind ranks (this is where the laws break, see `Props/C15.lean`). -/
-theorem val_lt_shallow_left (a b : JVal) (h : depth a < depth b) :
-    Val.lt a b = (strip a == JVal.undefined) := by
+theorem val_ge_base (a b : JVal) : Val.ge a b = Base.ge (strip a) (strip b) := by
   induction a generalizing b with
-  | ptr t ih =>
-    cases b with
-    | ptr u => simpa [Val.lt, strip] using ih u (by simpa [depth] using h)
-    | _ => simp [depth] at h
-  | _ => cases b <;> simp_all [depth, strip, Val.lt, rank]
+  | ptr t ih => cases b <;> simp [Val.ge, strip, ih]
+  | _ => cases b <;> simp [Val.ge, derefRight_strip, strip]
 
-/-! ### Pointer-free values: duality, transitivity -/
+theorem val_eq_base (a b : JVal) : Val.eq a b = Base.eq (strip a) (strip b) := by
+  induction a generalizing b with
+  | ptr t ih => cases b <;> simp [Val.eq, strip, ih]
+  | _ => cases b <;> simp [Val.eq, derefRight_strip, strip]
 
-theorem val_gt_eq_lt_swap0 (a b : JVal) (ha : depth a = 0) (hb : depth b = 0) :
-    Val.gt a b = Val.lt b a := by
-  cases a <;> cases b <;> simp_all [depth, Val.gt, Val.lt, rank, Str.gt_eq_lt_swap]
+/-- Observations through the base comparisons. -/
+theorem obsVal_base (a b : JVal) : obsVal a b =
+    { lt := Base.lt (strip a) (strip b), le := Base.le (strip a) (strip b),
+      gt := Base.gt (strip a) (strip b), ge := Base.ge (strip a) (strip b),
+      eq := Base.eq (strip a) (strip b) } := by
+  simp only [obsVal, val_lt_base, val_gt_base, val_le_base, val_ge_base, val_eq_base]
 
-theorem val_eq_comm0 (a b : JVal) (ha : depth a = 0) (hb : depth b = 0) :
-    Val.eq a b = Val.eq b a := by
-  cases a <;> cases b <;> simp_all [depth, Val.eq] <;>
+/-! ### Laws of the base comparisons -/
+
+theorem base_le_eq (a b : JVal) : Base.le a b = (Base.lt a b || Base.eq a b) := by
+  cases a <;> cases b <;> simp [Base.le, Base.lt, Base.eq, rank, nat_le_eq, int_le_eq, realLe_eq, Str.le_eq]
+
+theorem base_ge_eq (a b : JVal) : Base.ge a b = (Base.gt a b || Base.eq a b) := by
+  cases a <;> cases b <;> simp [Base.ge, Base.gt, Base.eq, rank, nat_ge_eq, int_ge_eq, realGe_eq, Str.ge_eq]
+
+theorem nat_tri (n m : Nat) :
+    ((decide (n < m) && !(n == m) && !decide (n > m)) || (!decide (n < m) && (n == m) && !decide (n > m)) ||
+      (!decide (n < m) && !(n == m) && decide (n > m))) = true := by
+  rcases Nat.lt_trichotomy n m with h | h | h
+  · have h1 : ¬ n = m := by omega
+    have h2 : ¬ n > m := by omega
+    simp [h, h1, h2]
+  · subst h; simp
+  · have h1 : ¬ n = m := by omega
+    have h2 : ¬ n < m := by omega
+    simp [h, h1, h2]
+
+theorem int_tri (n m : Int) :
+    ((decide (n < m) && !(n == m) && !decide (m < n)) || (!decide (n < m) && (n == m) && !decide (m < n)) ||
+      (!decide (n < m) && !(n == m) && decide (m < n))) = true := by
+  rcases Int.lt_trichotomy n m with h | h | h
+  · have h1 : ¬ n = m := by omega
+    have h2 : ¬ m < n := by omega
+    simp [h, h1, h2]
+  · subst h; simp
+  · have h1 : ¬ n = m := by omega
+    have h2 : ¬ n < m := by omega
+    simp [h, h1, h2]
+
+/-- Without NaN exactly one of `<`, `==`, `>` holds. -/
+theorem base_tri (a b : JVal) (da : depth a = 0) (db : depth b = 0) (ha : noNaN a = true) (hb : noNaN b = true) :
+    ((Base.lt a b && !Base.eq a b && !Base.gt a b) || (!Base.lt a b && Base.eq a b && !Base.gt a b) ||
+      (!Base.lt a b && !Base.eq a b && Base.gt a b)) = true := by
+  cases a with
+  | obj n => cases b with
+    | obj m => simpa [Base.lt, Base.gt, Base.eq] using nat_tri n m
+    | _ => simp [Base.lt, Base.gt, Base.eq, rank]
+  | arr n => cases b with
+    | arr m => simpa [Base.lt, Base.gt, Base.eq] using nat_tri n m
+    | _ => simp [Base.lt, Base.gt, Base.eq, rank]
+  | nat n => cases b with
+    | nat m => simpa [Base.lt, Base.gt, Base.eq] using nat_tri n m
+    | _ => simp [Base.lt, Base.gt, Base.eq, rank]
+  | int n => cases b with
+    | int m => simpa [Base.lt, Base.gt, Base.eq] using int_tri n m
+    | _ => simp [Base.lt, Base.gt, Base.eq, rank]
+  | str s1 => cases b with
+    | str s2 => simpa [Base.lt, Base.gt, Base.eq] using Str.tri s1 s2
+    | _ => simp [Base.lt, Base.gt, Base.eq, rank]
+  | real x => cases b with
+    | real y =>
+      cases x with
+      | none => simp [noNaN] at ha
+      | some n =>
+        cases y with
+        | none => simp [noNaN] at hb
+        | some m => simpa [Base.lt, Base.gt, Base.eq, realLt, realEq] using int_tri n m
+    | _ => simp [Base.lt, Base.gt, Base.eq, rank]
+  | _ => cases b <;> simp_all [Base.lt, Base.gt, Base.eq, rank, depth]
+
+theorem base_gt_eq_lt_swap (a b : JVal) : Base.gt a b = Base.lt b a := by
+  cases a <;> cases b <;> simp [Base.gt, Base.lt, rank, Str.gt_eq_lt_swap]
+
+theorem base_eq_comm (a b : JVal) : Base.eq a b = Base.eq b a := by
+  cases a <;> cases b <;> simp [Base.eq] <;>
     first | exact nat_beq_comm _ _ | exact int_beq_comm _ _ | exact Str.eq_comm _ _ | exact realEq_comm _ _
 
-theorem val_lt_of_rank_lt (a b : JVal) (ha : depth a = 0) (hb : depth b = 0) (h : rank a < rank b) :
-    Val.lt a b = true := by
-  cases a <;> cases b <;> simp_all [depth, Val.lt, rank]
+theorem base_lt_of_rank_lt (a b : JVal) (h : rank a < rank b) : Base.lt a b = true := by
+  cases a <;> cases b <;> simp_all [Base.lt, rank]
 
-theorem val_rank_le_of_lt (a b : JVal) (ha : depth a = 0) (hb : depth b = 0) (h : Val.lt a b = true) :
-    rank a ≤ rank b := by
-  cases a <;> cases b <;> simp_all [depth, Val.lt, rank]
-
-theorem val_rank_eq_of_eq (a b : JVal) (ha : depth a = 0) (hb : depth b = 0) (h : Val.eq a b = true) :
-    rank a = rank b := by
-  cases a <;> cases b <;> simp_all [depth, Val.eq, rank]
+theorem base_rank_le_of_lt (a b : JVal) (h : Base.lt a b = true) : rank a ≤ rank b := by
+  cases a <;> cases b <;> simp_all [Base.lt, rank]
 
 theorem realLt_trans (a b c : Option Int) : realLt a b = true → realLt b c = true → realLt a c = true := by
   cases a <;> cases b <;> cases c <;> simp [realLt]; omega
 
-theorem val_lt_trans_same (a b c : JVal) (ha : depth a = 0) (hb : depth b = 0) (hc : depth c = 0)
-    (r1 : rank a = rank b) (r2 : rank b = rank c) :
-    Val.lt a b = true → Val.lt b c = true → Val.lt a c = true := by
+theorem base_lt_trans_same (a b c : JVal) (r1 : rank a = rank b) (r2 : rank b = rank c) :
+    Base.lt a b = true → Base.lt b c = true → Base.lt a c = true := by
   intro h1 h2
   cases a <;> cases b <;> simp [rank] at r1 <;> cases c <;> simp [rank] at r2 <;>
-    simp [depth] at ha <;> simp [Val.lt] at h1 h2 ⊢
+    simp [Base.lt, rank] at h1 h2 ⊢
   all_goals first | omega | exact Str.lt_trans _ _ _ h1 h2 | exact realLt_trans _ _ _ h1 h2
 
-theorem val_lt_trans0 (a b c : JVal) (ha : depth a = 0) (hb : depth b = 0) (hc : depth c = 0) :
-    Val.lt a b = true → Val.lt b c = true → Val.lt a c = true := by
+theorem base_lt_trans (a b c : JVal) :
+    Base.lt a b = true → Base.lt b c = true → Base.lt a c = true := by
   intro h1 h2
-  have r1 := val_rank_le_of_lt a b ha hb h1
-  have r2 := val_rank_le_of_lt b c hb hc h2
+  have r1 := base_rank_le_of_lt a b h1
+  have r2 := base_rank_le_of_lt b c h2
   by_cases h : rank a < rank c
-  · exact val_lt_of_rank_lt a c ha hc h
-  · exact val_lt_trans_same a b c ha hb hc (by omega) (by omega) h1 h2
+  · exact base_lt_of_rank_lt a c h
+  · exact base_lt_trans_same a b c (by omega) (by omega) h1 h2
 
-theorem val_lt_irrefl0 (a : JVal) (ha : depth a = 0) : Val.lt a a = false := by
-  cases a <;> simp_all [depth, Val.lt, Str.lt_irrefl, realLt]
-  rename_i k; cases k <;> simp
+theorem base_lt_irrefl (a : JVal) : Base.lt a a = false := by
+  cases a <;> simp [Base.lt, Str.lt_irrefl, rank]
+  rename_i k; cases k <;> simp [realLt]
 
-/-! ### `==` on pointer-free values is equality of what the comparisons read; full transitivity -/
-
-theorem val_eq_true_imp_eq0 (a b : JVal) (ha : depth a = 0) (hb : depth b = 0)
-    (h : Val.eq a b = true) : a = b := by
-  cases a <;> cases b <;> simp_all [depth, Val.eq]
+/-- `==` means equality of everything the comparisons read. -/
+theorem base_eq_true_imp_eq (a b : JVal) (h : Base.eq a b = true) : a = b := by
+  cases a <;> cases b <;> simp_all [Base.eq]
   · exact (str_eq_iff _ _ ▸ h : decide (_ = _) = true) |> of_decide_eq_true
   · rename_i x y
     cases x <;> cases y <;> simp_all [realEq]
 
-theorem val_trans0 (a b c : JVal) (ha : depth a = 0) (hb : depth b = 0) (hc : depth c = 0) :
-    Obs.trans (obsVal a b) (obsVal b c) (obsVal a c) = true := by
-  simp only [Obs.trans, obsVal, val_le_eq]
-  cases hE1 : Val.eq a b with
+theorem base_trans (a b c : JVal) :
+    Obs.trans
+      { lt := Base.lt a b, le := Base.le a b, gt := Base.gt a b, ge := Base.ge a b, eq := Base.eq a b }
+      { lt := Base.lt b c, le := Base.le b c, gt := Base.gt b c, ge := Base.ge b c, eq := Base.eq b c }
+      { lt := Base.lt a c, le := Base.le a c, gt := Base.gt a c, ge := Base.ge a c, eq := Base.eq a c } = true := by
+  simp only [Obs.trans, base_le_eq]
+  cases hE1 : Base.eq a b with
   | true =>
-    have := val_eq_true_imp_eq0 a b ha hb hE1
+    have := base_eq_true_imp_eq a b hE1
     subst this
-    simp only [val_lt_irrefl0 a ha]
-    cases Val.lt a c <;> cases Val.eq a c <;> simp
+    simp only [base_lt_irrefl a]
+    cases Base.lt a c <;> cases Base.eq a c <;> simp
   | false =>
-    cases hE2 : Val.eq b c with
+    cases hE2 : Base.eq b c with
     | true =>
-      have := val_eq_true_imp_eq0 b c hb hc hE2
+      have := base_eq_true_imp_eq b c hE2
       subst this
-      simp only [val_lt_irrefl0 b hb, hE1]
-      cases Val.lt a b <;> simp
+      simp only [base_lt_irrefl b, hE1]
+      cases Base.lt a b <;> simp
     | false =>
-      cases hL1 : Val.lt a b <;> cases hL2 : Val.lt b c <;> simp
-      simp [val_lt_trans0 a b c ha hb hc hL1 hL2]
-
-theorem obsVal_strip (a b : JVal) (h : depth a = depth b) : obsVal a b = obsVal (strip a) (strip b) := by
-  simp only [obsVal, val_le_eq, val_ge_eq]
-  rw [val_lt_strip a b (by omega), val_gt_strip a b (by omega), val_eq_strip a b (by omega)]
+      cases hL1 : Base.lt a b <;> cases hL2 : Base.lt b c <;> simp
+      simp [base_lt_trans a b c hL1 hL2]
 
 end Qentem.Order
